@@ -1083,7 +1083,8 @@ pub fn generate(prop: &str, tier: &str, seed: u64, out: &mut impl Write) {
             // beyond 65535 coils
             let huge: Vec<usize> = if tier == "thorough" { vec![65535, 65536, 65537, 70000, 131071, 131072, 262145] } else { vec![65535, 65536, 65537, 70000] };
             for n in huge {
-                let b = bits(r, n); let need = (n + 7) / 8;
+                // never a constant vector here: an index that wraps at 2^16 is invisible on constant coils
+                let b: Vec<bool> = (0..n).map(|i| r.bool() ^ (i >= 65536 && i % 7 == 0)).collect(); let need = (n + 7) / 8;
                 let ts: Vec<usize> = vec![need - 1, need, need + 3];
                 for t in ts { emit(&b, t, &fill_tok(r), out); }
             }
